@@ -77,6 +77,20 @@ def gen_cases(tier, rng):
             for port in (None, 1024 + r.below(60000)):
                 cases.append({"id": "port/%s/%s" % (g["id"], port), "hex": generic_case(g["id"], port, None, [], []),
                               "meta": {"stream": "default-port", "dest": port if port is not None else g["default_port"], "events": [], "tags": {}}})
+    # the same games through their dedicated modules with the port omitted: the module's default port must be the definition's
+    import C14
+    mods = _json.load(open(BUILD + "/gen/modules.json"))
+    for g in games:
+        pr = g["protocol"]
+        if not (isinstance(pr, dict) and ("Valve" in pr or "Gamespy" in pr or "Quake" in pr) or pr == "Unreal2"):
+            continue
+        module = ""
+        for m in mods["modules"]:
+            if m["id"] == g["id"] or m["name"] == g["name"]:
+                module = m["id"]
+        if module:
+            cases.append({"id": "modport/%s" % g["id"], "hex": C14.paths_case(g["id"], module, None, {"retries": 0}, []),
+                          "meta": {"stream": "module-default-port", "game": g["id"], "events": [], "tags": {}}})
     import C03
     mcseeds = [rng.next() >> 1 for _ in range(60 if tier == "quick" else 1500)]
     outs = run_model([(bytes([133]) + x.to_bytes(8, "big") + bytes([1])).hex() for x in mcseeds])
@@ -139,6 +153,11 @@ QUAKE_REQ = {1: "ffffffff73746174757300", 2: "ffffffff73746174757300", 3: "fffff
 
 
 def oracle(case, impl, side):
+    if case["meta"]["stream"] == "module-default-port":
+        if "paths=DIFF" in side and "d!=" in side:
+            return ("default-port:" + case["meta"]["game"],
+                    "game %s with the port omitted: its module and its definition do not send the same requests to the same port: %s" % (case["meta"]["game"], side[:300]))
+        return None
     if "dest" in case["meta"]:
         res, trace = split_result(impl)
         ports = set(int(t[1:].split(":")[0].split("c")[0]) for t in (trace or "").split(";") if t[:1] in ("U", "T", "S"))
